@@ -400,6 +400,8 @@ def main_check(prop, module, argv):
     aud = audit(prop, thorough=(args.tier == 'thorough'))
     if args.replay:
       obj = json.load(open(os.path.join(VERIF, args.replay) if not os.path.isabs(args.replay) else args.replay))
+      if isinstance(obj.get('case'), dict) and 'model_disagreements_in_same_run' in obj['case']:
+        obj['case'] = obj['case']['case']  # undo the wrapping done by finish()
       still = module.replay(ctx, obj)
       print(f'[{prop}] replay {"reproduces the violation" if still else "passes"}')
       return 1 if still else 0
